@@ -54,3 +54,56 @@ Example C04_nonvacuous :
   wf (builtin_table true) = true /\ bytes_ok [238; 126; 27; 0; 255] = true /\
   escape (builtin_table true) [238; 126; 27; 0; 255] = [238; 238; 238; 49; 238; 71; 0; 255].
 Proof. vm_compute. auto. Qed.
+
+(* ---- the codec layer around the escaper (Model/Base64.v, Model/Wire.v) ---- *)
+From Trzsz Require Import Model.Base64 Model.Wire Proofs.Base64 Proofs.Wire.
+
+(* every byte base64 produces is an alphabet character or '=' — for ANY input list *)
+Theorem C04_b64_alphabet : forall d, forallb is_b64_byte (b64_encode d) = true.
+Proof. exact encode_alphabet. Qed.
+Print Assumptions C04_b64_alphabet.
+
+(* ... hence passes isTrzszLetter (character classes regenerated from buffer.go), hence is
+   none of ETX, LF, CR, ESC, '!' *)
+Theorem C04_b64_letters : forall c, is_b64_byte c = true -> wire_letter c = true /\ not_special c = true.
+Proof. intros c H. split; [apply b64_is_letter, H|apply wire_letter_not_special, b64_is_letter, H]. Qed.
+Print Assumptions C04_b64_letters.
+
+(* Everything an uploading client writes in binary mode, message by message: lines whose
+   payload is base64 (ACT NAME MD5 EXIT HASH fail ...) or decimal (NUM SIZE) or true/false
+   (COMP), keep-alives "#DATA:=" / "#SUCC:=", acks, "#DATA:<n>\n" headers followed by a
+   piece of an escaped stream (the escaper's input [d] is arbitrary: whatever a compressor
+   in front of it produced), protocol-1 DATA messages, each ended by the client's newline —
+   contains no byte protected by the table in use, for both built-in tables (regenerated
+   from escape.go). *)
+Theorem C04_upload_wire_clean : forall zl escape_all ms b,
+  let t := builtin_table escape_all in
+  Forall (fun m => wmsg_typ_ok m = true) ms -> Forall (wmsg_payload_ok t) ms ->
+  In b (wire_bytes zl true t Consts.client_newline ms) -> protected t b = false.
+Proof. exact upload_wire_clean. Qed.
+Print Assumptions C04_upload_wire_clean.
+
+(* the concrete transcript: ACT, NUM, per file NAME / SIZE / the frames the four-stage
+   encoder cuts (any buffer sizes, cut again by pipelineSendData) / finish flag / MD5, EXIT,
+   keep-alives anywhere; zlib [zl] and zstd [zcomp] are arbitrary functions *)
+Theorem C04_upload_transcript_clean : forall zl zcomp escape_all act_z files dflt exit_z ms b,
+  let t := builtin_table escape_all in
+  (forall m, In m ms -> In m (wire_upload_msgs zcomp true t act_z files dflt exit_z) \/
+                        exists typ, m = WPause typ /\ wire_typ_ok typ = true) ->
+  In b (wire_bytes zl true t Consts.client_newline ms) -> protected t b = false.
+Proof. exact upload_transcript_clean. Qed.
+Print Assumptions C04_upload_transcript_clean.
+
+(* non-vacuity: an upload of bytes that ARE protected, through an identity "compressor";
+   the first frame is cut again by pipelineSendData (between a leader and its code) *)
+Example C04_wire_nonvacuous :
+  let t := builtin_table true in
+  let f := {| wf_name_z := [1; 2; 3]; wf_size := 5; wf_compress := false; wf_chunks := [[126; 27; 13]; [17; 238]];
+              wf_sizes := [4%nat]; wf_rsizes := [3; 2]%nat; wf_md5_z := [9] |} in
+  wire_bytes (fun x => x) true t Consts.client_newline (wire_upload_msgs (fun x => x) true t [0] [f] 4 [7]) =
+  [35; 65; 67; 84; 58; 65; 65; 61; 61; 10;  35; 78; 85; 77; 58; 49; 10;
+   35; 78; 65; 77; 69; 58; 65; 81; 73; 68; 10;  35; 83; 73; 90; 69; 58; 53; 10;
+   35; 68; 65; 84; 65; 58; 50; 10; 238; 49;  35; 68; 65; 84; 65; 58; 50; 10; 238; 71;
+   35; 68; 65; 84; 65; 58; 52; 10; 238; 66; 238; 68;  35; 68; 65; 84; 65; 58; 50; 10; 238; 238;
+   35; 68; 65; 84; 65; 58; 48; 10;  35; 77; 68; 53; 58; 67; 81; 61; 61; 10;  35; 69; 88; 73; 84; 58; 66; 119; 61; 61; 10].
+Proof. vm_compute. reflexivity. Qed.
